@@ -1,2 +1,3 @@
 pub mod simkit;
 pub mod props;
+pub mod model;
